@@ -5,6 +5,7 @@ of a query tree (which selections are written at the node numbered `vid`).
 -/
 import TrustfallModel.Model.Frontend
 import TrustfallModel.Proofs.InterpSpec.SpecO
+import TrustfallModel.Proofs.RecDfs
 
 namespace TF.InterpSpec
 open TF TF.Engine TF.Spec TF.Frontend
@@ -53,6 +54,32 @@ def paramsAgreeB (H : HypEnv) (n : Name) (params ps : Params) : Bool :=
         (Spec.completeParams (declParams H.senv (H.D.supers (H.D.typeOf a.vertex)) n) params) ==
       H.D.nbrs a.vertex n ps
 
+/-- The same for a recursion: the specification completes the parameters once, from the starting
+vertex' own declaration, and uses them at every depth (only starting vertices that have a neighbour
+matter). -/
+def paramsAgreeRecB (H : HypEnv) (n : Name) (params ps : Params) : Bool :=
+  H.D.adj.all fun a =>
+    (H.D.nbrs a.vertex n ps).isEmpty ||
+      H.D.adj.all fun b =>
+        H.D.nbrs b.vertex n
+            (Spec.completeParams (declParams H.senv (H.D.supers (H.D.typeOf a.vertex)) n) params) ==
+          H.D.nbrs b.vertex n ps
+
+/-- The dataset convention for recursion (`hconv` of `recurse_is_reach`): a vertex that fails the
+implicit coercion between recursion levels has no such edge. -/
+def recConvB (D : Data) (n : Name) (ps : Params) (coerceTo : Option Name) : Bool :=
+  D.adj.all fun a => recGate D coerceTo (some a.vertex) || (D.nbrs a.vertex n ps).isEmpty
+
+/-- The additional hypotheses of a `@recurse` edge. -/
+def recOK (H : HypEnv) (ty : Name) (ed : EdgeInfo) (n : Name) (params ps : Params) (kind : Kind) :
+    Bool :=
+  match kind with
+  | .recurse _ =>
+    match recursiveOf H.S ty ed kind with
+    | .ok (some r) => recConvB H.D n ps r.coerceTo && paramsAgreeRecB H n params ps
+    | _ => true
+  | _ => true
+
 /-- Edge kinds of fragment `frag` (1: plain/optional, 2: + recurse, 3: + fold). -/
 def kindIn (frag : Nat) : Kind → Bool
   | .plain | .optional => 1 ≤ frag
@@ -76,7 +103,9 @@ def hypsFields (H : HypEnv) (frag : Nat) (ty : Name) : List QField → Bool
     (match H.S.edge? ty n with
       | some ed =>
         match Frontend.completeParams ed.params params with
-        | .ok ps => kindIn frag kind && paramsAgreeB H n params ps && hypsNode H frag ed.target child
+        | .ok ps =>
+          kindIn frag kind && paramsAgreeB H n params ps && recOK H ty ed n params ps kind &&
+            hypsNode H frag ed.target child
         | .error _ => true
       | none => true) && hypsFields H frag ty rest
 end
